@@ -222,6 +222,7 @@ type Call struct {
 	FaultKind   int // see Probes.Kind
 	Tokens      bool
 	NilVars     bool // Execute is called with nil variables; what the templates need is provided as Set globals
+	EmptyVars   bool // with NilVars: Execute is given an empty, non-nil VarMap instead (which must stay empty)
 	SetCfg      int  // which Set configuration the call runs on (C10: 0 = default escaper, 1 = no escaper + a global)
 }
 
@@ -241,6 +242,9 @@ func (c Call) String() string {
 	}
 	if c.NilVars {
 		s += " nil-variables"
+	}
+	if c.EmptyVars {
+		s += "(empty-map)"
 	}
 	if c.FaultWrite > 0 {
 		s += fmt.Sprintf(" fault=write#%d", c.FaultWrite)
@@ -411,6 +415,9 @@ func Exec(set *jet.Set, c Call, tag string) Outcome {
 			set.AddGlobal(k, vm[k].Interface())
 		}
 		vm = nil
+		if c.EmptyVars {
+			vm = jet.VarMap{}
+		}
 	}
 	data := c.Data.Data()
 	var xerr error
